@@ -29,7 +29,9 @@ RULE = ('Initial token state: every subset of {username, access token, '
         'HTTP error status on any operation but validate raises '
         'YggdrasilError with the status code and the service\'s error '
         'fields, or a "Malformed" message for any other body (Y4); after '
-        'any raised error every stored field is unchanged (Y5). '
+        'any raised error every stored field is unchanged (Y5); a second '
+        'token object alive during the history and a token constructed '
+        'after it hold nothing (Y6). '
         'Non-trivial: a history with an error reply on a populated token '
         'followed by a successful operation; distinct by history.')
 LEVEL_TEXT = ('Model-based testing of the token operations over generated '
